@@ -32,6 +32,7 @@ type Ctx struct {
 
 	cg, chaG *callgraph.Graph
 	Stats    map[string]int
+	Overlay  map[string][]byte
 }
 
 type LoadOpts struct {
@@ -55,7 +56,7 @@ func Load(repo string, o LoadOpts) (*Ctx, error) {
 	if err != nil {
 		return nil, fmt.Errorf("packages.Load: %v", err)
 	}
-	c := &Ctx{Repo: repo, AllPkgs: map[string]*packages.Package{}, Stats: map[string]int{}}
+	c := &Ctx{Repo: repo, AllPkgs: map[string]*packages.Package{}, Stats: map[string]int{}, Overlay: o.Overlay}
 	var errs []string
 	packages.Visit(pkgs, nil, func(p *packages.Package) {
 		c.AllPkgs[p.ID] = p
